@@ -37,11 +37,57 @@ def strategy(draw, tier):
     case['return_samples'] = True
     case['probe'] = draw(st.sampled_from(['eq', 'ulp+', 'ulp-', 'eq']))
     case['probe_row'] = draw(st.integers(0, 200))
+    case['exact_duration'] = draw(st.integers(0, 3)) == 0
     return case
+
+
+def exact_duration_thresholds(case, x):
+    """Normalised amplitude threshold t such that the supra-threshold period around the envelope maximum lasts EXACTLY the
+    minimum burst length ceil(min_n_cycles * fs / f_lo) samples (None if no such t exists): a value on the boundary of the rule."""
+    bk = case.get('bk') or {}
+    n = pipeline.resolved_min_cycles(case)
+    if not n or bk.get('min_burst_duration') is not None:
+        return None
+    try:
+        amp = ref.amp_by_time(np.asarray(x, dtype=float), case['fs'], tuple(case['f_range']), remove_edges=False,
+                              **(bk.get('filter_kwargs') or {}))
+    except Exception:  # noqa
+        return None
+    med = np.median(amp)
+    if not np.isfinite(med) or med <= 0:
+        return None
+    mag = amp / med
+    mag[[0, -1]] = 0
+    K = int(math.ceil(n * case['fs'] / case['f_range'][0]))
+    top = int(np.argmax(mag))
+    cand = np.unique(mag)
+    lo, hi = 0, len(cand) - 1
+    while lo <= hi:                       # the run around the maximum shrinks monotonically as t grows
+        mid = (lo + hi) // 2
+        above = mag >= cand[mid]
+        a = top
+        while a > 0 and above[a - 1]:
+            a -= 1
+        b = top
+        while b < len(mag) - 1 and above[b + 1]:
+            b += 1
+        length = b - a + 1
+        if length == K:
+            return float(cand[mid])
+        if length > K:
+            lo = mid + 1
+        else:
+            hi = mid - 1
+    return None
 
 
 def check(case, rec):
     x = gen.render_signal(case['sig'])
+    if case.get('exact_duration'):
+        t = exact_duration_thresholds(case, x)
+        if t is not None and t > 0:
+            case = dict(case, bk=dict(case.get('bk') or {}, amp_threshes=[t, t]))
+            rec.label('burst-of-exactly-the-minimum-duration')
     pipeline.expected_cycles(case, x)
     mask = pipeline.trusted_burst_mask(case, x)
     df = pipeline.analyse(case, x, return_samples=True)
